@@ -155,6 +155,9 @@ impl Hash for NinjaRule<'_> {
         if self.pool.is_some() {
             self.pool.hash(state);
         }
+        if self.always {
+            self.always.hash(state);
+        }
 
         self.rspfile.hash(state);
         self.rspfile_content.hash(state);
